@@ -48,6 +48,10 @@ const SYNTH: &[&str] = &[
     "e.com#$#.x { display: none }",
     "$$script[data-x]",
     "bücher.example##.ü",
+    "##.ad\\:box",
+    "###\\31 23",
+    "##.a\\é",
+    "~example.org##.x\\€ > .y",
     "||bücher.example^$domain=münchen.example",
 ];
 
@@ -128,6 +132,18 @@ fn exercise(s: &str, perm: u8) -> (u64, Option<String>) {
                 }
             }
         }
+    }
+    // loading the line into an engine and asking it something is part of "the list loads"
+    {
+        let mut fs = FilterSet::new(false);
+        fs.add_filters([s], ParseOptions::default());
+        let e = Engine::from_filter_set(fs, true);
+        let r = e.url_cosmetic_resources("https://example.com/");
+        let _ = e.hidden_class_id_selectors(["ad", "a"], ["ban"], &r.exceptions);
+        if let Ok(rq) = Request::new("https://ads.example.com/banner/ad.js?x=1", "https://example.com/", "script") {
+            let _ = e.check_network_request(&rq);
+        }
+        n += 1;
     }
     let _ = NetworkFilter::parse_hosts_style(s, true);
     let _ = read_list_metadata(s);
